@@ -145,7 +145,23 @@ SeedsOf(pv) ==
   \cup {[pv |-> pv, f |-> f, mode |-> "base", P |-> {}] : f \in ArgFrames(n)}
   \* extra slot beyond the set (only the trusting variant gets past the size check)
   \cup {[pv |-> pv, f |-> [PlainFrame(n) EXCEPT !.name = "long_exotic", !.slots = n + 1], mode |-> "longex", P |-> {}]}
+  \* FOREIGN commits (what VerifyCommitLightTrusting is for): the commit belongs to another validator set, so its
+  \* length m and slot order are decoupled from vs -- shorter and longer than vs, every slot absent, signed by an
+  \* unknown key, or a valid for-block signature of ANY member of vs (also members whose index is >= m), the same
+  \* member any number of times
+  \cup {[pv |-> pv, f |-> [PlainFrame(n) EXCEPT !.name = "foreign", !.slots = m], mode |-> "foreign", P |-> {}] :
+          m \in 1..(IF n = 0 THEN 0 ELSE IF n >= 4 THEN n ELSE n + 1)}
 Seeds == UNION {SeedsOf(pv) : pv \in PVs}
+
+\* a foreign commit from its signer vector: ow[k] = 0 unknown key, 1..n that member of vs, n+1 absent
+CaseOfSigners(pv, f, ow) ==
+  LET n == Len(pv)
+      kindOf(k) == IF ow[k] = n + 1 THEN "absent" ELSE IF ow[k] = 0 THEN "unknown" ELSE "ok"
+  IN
+  [pv |-> pv, frame |-> f.name, kinds |-> [k \in 1..f.slots |-> kindOf(k)],
+   chain |-> f.aChain, h |-> f.aH, bid |-> f.aBid,
+   c |-> [height |-> f.cH, round |-> R, bid |-> f.cBid,
+          sigs |-> [k \in 1..f.slots |-> SlotOf(kindOf(k), ValId(ow[k]), ValId(ow[k]), f.sx, 10 + k)]]]
 
 \* kind vectors of a seed.  exotic: exactly the positions P are exotic, the others BaseKinds
 VecsOf(sd) ==
@@ -154,14 +170,17 @@ VecsOf(sd) ==
   THEN {[k \in 1..m |-> IF k \in sd.P THEN ex[k] ELSE bs[k]] : ex \in [sd.P -> ExoticKinds], bs \in [(1..m) \ sd.P -> BaseKinds]}
   ELSE IF sd.mode = "core" THEN CoreVecs(m)
   ELSE IF sd.mode = "base" THEN [1..m -> BaseKinds]
+  ELSE IF sd.mode = "foreign" THEN [1..m -> 0..(Len(sd.pv) + 1)]
   ELSE {[k \in 1..m |-> IF k < m THEN bs[k] ELSE last] : bs \in [1..(m - 1) -> BaseKinds], last \in LastKinds}
+
+CaseFor(sd, kv) == IF sd.mode = "foreign" THEN CaseOfSigners(sd.pv, sd.f, kv) ELSE CaseOf(sd.pv, sd.f, kv)
 
 \* ---------------------------------------------------------------- the checked state space
 VARIABLES seed, cs, ready
 cvars == <<seed, cs, ready>>
 CaseInit == seed \in Seeds /\ cs = << >> /\ ready = FALSE
 CaseNext == /\ ~ready
-            /\ \E kv \in VecsOf(seed) : cs' = CaseOf(seed.pv, seed.f, kv)
+            /\ \E kv \in VecsOf(seed) : cs' = CaseFor(seed, kv)
             /\ ready' = TRUE
             /\ seed' = seed
 
